@@ -3,6 +3,7 @@
 package gen
 
 import (
+	bcrpb "github.com/google/fhir/go/proto/google/fhir/proto/r4/core/resources/bundle_and_contained_resource_go_proto"
 	"math"
 	"strings"
 	"time"
@@ -109,6 +110,8 @@ func StdEnv() []EnvVal {
 		{"fprims", system.Collection{&dtpb.String{Value: "a"}, &dtpb.Code{Value: "b"}, &dtpb.Integer{Value: 1}, &dtpb.String{Value: "a"}, &dtpb.Boolean{Value: true}, &dtpb.Decimal{Value: "1.0"}}, "multi"},
 		{"fdbadtz", &dtpb.Date{ValueUs: 1577836800000000, Timezone: "Mars/Olympus", Precision: dtpb.Date_DAY}, "elem-prim"},
 		{"idxc", system.Collection{system.Integer(1)}, "multi"},
+		{"resource", system.Collection{}, "empty"}, {"rootResource", system.Collection{}, "empty"}, // names a caller may well choose; they are the caller's
+		{"bw", &bcrpb.Bundle{Entry: []*bcrpb.Bundle_Entry{{FullUrl: &dtpb.Uri{Value: "urn:x"}, Resource: &bcrpb.ContainedResource{}}}}, "elem"},
 		{"nilc", system.Collection(nil), "empty"},
 		{"sparec", make(system.Collection, 0, 4), "empty"}, // no items, spare capacity (pre-sized or re-sliced by the caller)
 		{"spare3", append(make(system.Collection, 0, 8), system.String("a"), system.String("b"), system.String("c")), "multi"},
@@ -148,7 +151,7 @@ var (
 		// beyond the float64 range in both directions (functions that go through float64 must not fail on them)
 		"1" + strings.Repeat("0", 320) + ".0", "-1" + strings.Repeat("0", 320) + ".0", "0." + strings.Repeat("0", 330) + "1"}
 	StrSrcs = []string{"''", "'abc'", "'a'", "'é'", "'h€llo😀'", "'é'", "'a\\'b'", "' 1'", "'1'", "'+1'", "'-1'", "'1.0'", "'1e3'", "'abc1'", "'true'", "'yes'", "'T'",
-		"'2020'", "'2020-01-01'", "'2020-13-01'", "'2020-01-01T10:00:00Z'", "'@2020'", "'T10:00'", "'10:00'", "'24:00'", "'25:00'", "'5 \\'mg\\''", "'5'", "'5 days'", "'1 \\'wk\\''", "'5 mg'", "'(['", "'a.b'", "'\\u123'", "'ab\\u00e'", "'\\u00g'", "'\\u'", "'\\u1'", "'\\x'", "'a\\'", "'\\u12345'", "'5\\t mg'", "'1.5\\r days'", "'5 \\'m g\\''", "'5\\n\\'mg\\''", "'5\\t'", "'\\t5'",
+		"'2020'", "'2020-01-01'", "'2020-13-01'", "'2020-01-01T10:00:00Z'", "'@2020'", "'T10:00'", "'10:00'", "'24:00'", "'25:00'", "'23:59:59.9996'", "'2020-12-31T23:59:59.9996Z'", "'10:00:00.0004'", "'5 \\'mg\\''", "'5'", "'5 days'", "'1 \\'wk\\''", "'5 mg'", "'(['", "'a.b'", "'\\u123'", "'ab\\u00e'", "'\\u00g'", "'\\u'", "'\\u1'", "'\\x'", "'a\\'", "'\\u12345'", "'5\\t mg'", "'1.5\\r days'", "'5 \\'m g\\''", "'5\\n\\'mg\\''", "'5\\t'", "'\\t5'",
 		"%fstr", "%fstrn", "%fcode", "%fenum", "%furi", "%fb64"}
 	BoolSrcs = []string{"true", "false", "%fbool"}
 	DateSrcs = []string{"%fdbadtz", "@2020", "@2020-02", "@2020-02-29", "@2021-02-28", "@2020-12-31", "@0001-01-01", "@9999-12-31", "@2020-01", "%fdate", "(@9999-12-31 + 1 day)", "(@0001-01-01 - 2 years)"}
